@@ -156,6 +156,8 @@ Record inv (s : st) : Prop := mkInv {
            fp a = fp b -> fp a <> 0 -> n1 = n2;
   i_nm : forall n w, find n (mem s) = Some w -> w_type w <> TColl -> 1 <= w_n w;
   i_nd : forall n w, find n (disk s) = Some w -> w_type w <> TColl -> 1 <= w_n w;
+  i_cm : forall n w, find n (mem s) = Some w -> 0 <= w_c w;
+  i_cd : forall n w, find n (disk s) = Some w -> 0 <= w_c w;
   i_ok : forall n w, find n (disk s) = Some w -> name_ok n = true;
   i_et : forall n w, find n (mem s) = Some w -> w_enc w = true -> w_temp w = false }.
 
@@ -179,11 +181,12 @@ Lemma commit_inv : forall s w w' dfail s' e,
   find (w_name w') (mem s) = Some w ->
   fp w' = fp w -> w_temp w' = w_temp w ->
   (w_type w' <> TColl -> 1 <= w_n w') ->
+  0 <= w_c w' ->
   (w_enc w' = true -> w_temp w' = false) ->
   commit s w' dfail = (s', e) -> inv s'.
 Proof.
-  intros s w w' dfail s' e I Hw Hfp Htemp Hn Het Hc.
-  destruct I as [Um Ud Md U1 U2 F Fm Fd Nm Nd Ok Et].
+  intros s w w' dfail s' e I Hw Hfp Htemp Hn Hcn Het Hc.
+  destruct I as [Um Ud Md U1 U2 F Fm Fd Nm Nd Cm Cd Ok Et].
   assert (Hfw : forall f, (exists n x, find n (put w' (mem s)) = Some x /\ fp x = f) <->
                           (exists n x, find n (mem s) = Some x /\ fp x = f)).
   { intros f. split; intros (n & x & Hx & Hf).
@@ -221,6 +224,9 @@ Proof.
     + intros n x Hx Ht. rewrite find_put in Hx. name_cases (w_name w') n.
       * inversion Hx. subst x. auto.
       * eauto.
+    + intros n x Hx. rewrite find_put in Hx. name_cases (w_name w') n.
+      * inversion Hx. subst x. auto.
+      * eauto.
     + intros n x Hx He. rewrite find_put in Hx. name_cases (w_name w') n.
       * inversion Hx. subst x. specialize (Het He). congruence.
       * eauto.
@@ -250,6 +256,12 @@ Proof.
         -- inversion Hx. subst x. auto.
         -- eauto.
       * intros n x Hx Ht. rewrite find_put in Hx. name_cases (w_name w') n.
+        -- inversion Hx. subst x. auto.
+        -- eauto.
+      * intros n x Hx. rewrite find_put in Hx. name_cases (w_name w') n.
+        -- inversion Hx. subst x. auto.
+        -- eauto.
+      * intros n x Hx. rewrite find_put in Hx. name_cases (w_name w') n.
         -- inversion Hx. subst x. auto.
         -- eauto.
       * intros n x Hx. rewrite find_put in Hx. name_cases (w_name w') n.
@@ -283,6 +295,7 @@ Lemma create_inv : forall s w,
   inv s ->
   name_ok (w_name w) = true ->
   (w_type w <> TColl -> 1 <= w_n w) ->
+  0 <= w_c w ->
   (w_enc w = true -> w_temp w = false) ->
   (fp w <> 0 -> has_fp (fp w) (fps s) = false) ->
   (fp w <> 0 -> w_temp w = false -> unloaded_file_has_fp s (fp w) (w_name w) = false) ->
@@ -292,8 +305,8 @@ Lemma create_inv : forall s w,
             (if fp w =? 0 then fps s else (fp w, w_name w) :: fps s)
             (if w_temp w then unloaded s else del_str (w_name w) (unloaded s))).
 Proof.
-  intros s w I Hok Hn Het Hfps Hscan Hnone.
-  destruct I as [Um Ud Md U1 U2 F Fm Fd Nm Nd Ok Et].
+  intros s w I Hok Hn Hcn Het Hfps Hscan Hnone.
+  destruct I as [Um Ud Md U1 U2 F Fm Fd Nm Nd Cm Cd Ok Et].
   (* the new fingerprint is not in memory *)
   assert (Hnew : forall n x, find n (mem s) = Some x -> fp x = fp w -> fp w = 0).
   { intros n x Hx Hf. destruct (Z.eq_dec (fp w) 0) as [|Hnz]; auto.
@@ -339,6 +352,9 @@ Proof.
     + intros n x Hx Ht. rewrite find_put in Hx. name_cases (w_name w) n.
       * inversion Hx. subst x. auto.
       * eauto.
+    + intros n x Hx. rewrite find_put in Hx. name_cases (w_name w) n.
+      * inversion Hx. subst x. auto.
+      * eauto.
     + intros n x Hx He. rewrite find_put in Hx. name_cases (w_name w) n.
       * inversion Hx. subst x. specialize (Het He). congruence.
       * eauto.
@@ -378,6 +394,12 @@ Proof.
       * inversion Hx. subst x. auto.
       * eauto.
     + intros n x Hx. rewrite find_put in Hx. name_cases (w_name w) n.
+      * inversion Hx. subst x. auto.
+      * eauto.
+    + intros n x Hx. rewrite find_put in Hx. name_cases (w_name w) n.
+      * inversion Hx. subst x. auto.
+      * eauto.
+    + intros n x Hx. rewrite find_put in Hx. name_cases (w_name w) n.
       * subst n. auto.
       * eauto.
     + intros n x Hx He. rewrite find_put in Hx. name_cases (w_name w) n.
@@ -393,7 +415,7 @@ Lemma unload_inv : forall s name w,
             (if mem_str name (unloaded s) then unloaded s else name :: unloaded s)).
 Proof.
   intros s name w I Hw.
-  destruct I as [Um Ud Md U1 U2 F Fm Fd Nm Nd Ok Et].
+  destruct I as [Um Ud Md U1 U2 F Fm Fd Nm Nd Cm Cd Ok Et].
   assert (Hu : forall n, mem_str n (if mem_str name (unloaded s) then unloaded s else name :: unloaded s) =
                          String.eqb n name || mem_str n (unloaded s)).
   { intros n. destruct (mem_str name (unloaded s)) eqn:Eu.
@@ -427,19 +449,42 @@ Proof.
     name_cases name n1; [discriminate|]. name_cases name n2; [discriminate|]. eauto.
   - intros n x Hx. rewrite find_del in Hx. name_cases name n; [discriminate|]. eauto.
   - intros n x Hx. rewrite find_del in Hx. name_cases name n; [discriminate|]. eauto.
+  - intros n x Hx. rewrite find_del in Hx. name_cases name n; [discriminate|]. eauto.
 Qed.
 
 Definition E_some : forall e : string, E e = Some e := fun _ => eq_refl.
 
 (* every operation preserves the invariant *)
+Lemma create_check_enc : forall typ seed label enc pw temp,
+  create_check typ seed label enc pw temp = None -> enc = true -> temp = false.
+Proof.
+  unfold create_check. intros typ seed label enc pw temp H He. subst enc.
+  destruct (typ =? TXpub); [discriminate|].
+  destruct (negb ((typ =? TDet) || (typ =? TColl) || (typ =? TBip))); [discriminate|].
+  destruct (label =? 0); [discriminate|].
+  destruct (negb (typ =? TColl) && (seed =? 0)); [discriminate|].
+  destruct temp; auto. discriminate.
+Qed.
+
+Ltac commit_case I Ef :=
+  let Hnm := fresh "Hnm" in
+  pose proof (find_name _ _ _ Ef) as Hnm;
+  match goal with |- inv (fst (commit ?s ?w' ?d)) =>
+    let s' := fresh "s'" in let e := fresh "e" in let Ec := fresh "Ec" in
+    destruct (commit s w' d) as [s' e] eqn:Ec;
+    match type of Ef with find _ _ = Some ?w => apply (commit_inv s w w' d s' e I); auto;
+      try (cbn; rewrite Hnm; exact Ef) end
+  end.
+
 Lemma step_inv : forall s o, inv s -> wf_op o = true -> inv (fst (step s o)).
 Proof.
   intros s o I Hwf. unfold step.
-  destruct o as [name typ seed label enc pw n temp dfail | name pw n dfail | name pw num dfail
+  destruct o as [name typ seed label enc pw n temp dfail | name pw n chg dfail | name pw num ea ca dfail
                 | name label dfail | name pw dfail | name pw dfail | name seed pw dfail
                 | name | name pw fok label dfail | name fok label dfail]; cbn [step_gen].
   - (* Create *)
     cbn in Hwf. apply andb_prop in Hwf. destruct Hwf as [Hok Hn]. apply Z.leb_le in Hn.
+    destruct (create_check typ seed label enc pw temp) eqn:Ecc; [exact I|].
     repeat match goal with
            | |- inv (fst (if ?c then _ else _)) =>
                lazymatch type of c with bool => destruct c eqn:?; [exact I|] end
@@ -450,102 +495,87 @@ Proof.
     assert (Hn1 : w_type w <> TColl -> 1 <= w_n w).
     { cbn [w_type w_n w]. intros Ht. apply Z.eqb_neq in Ht. rewrite Ht.
       destruct (n =? 0) eqn:En; [lia|]. apply Z.eqb_neq in En. lia. }
+    assert (Hc0 : 0 <= w_c w) by (cbn [w_c w]; destruct (typ =? TBip); lia).
     assert (Het : w_enc w = true -> w_temp w = false).
-    { cbn [w_enc w_temp w]. intros He. subst enc. destruct temp; auto. }
+    { cbn [w_enc w_temp w]. eapply create_check_enc; eauto. }
     assert (Hfps : fp w <> 0 -> has_fp (fp w) (fps s) = false).
     { intros Hnz. apply Z.eqb_neq in Hnz.
       match goal with H : negb (fp w =? 0) && has_fp _ _ = false |- _ => rewrite Hnz in H; exact H end. }
     destruct temp.
-    + pose proof (create_inv s w I Hok Hn1 Het Hfps) as C. cbn [w_temp w_name w] in C.
+    + pose proof (create_inv s w I Hok Hn1 Hc0 Het Hfps) as C. cbn [w_temp w_name w] in C.
       apply C; auto. intros; discriminate.
     + destruct dfail.
-      * (* the scan or the save fails *)
-        destruct (fp w =? 0) eqn:Ez; cbn in *; try discriminate; exact I.
-      * pose proof (create_inv s w I Hok Hn1 Het Hfps) as C. cbn [w_temp w_name w] in C.
+      * destruct (fp w =? 0) eqn:Ez; cbn in *; try discriminate; exact I.
+      * pose proof (create_inv s w I Hok Hn1 Hc0 Het Hfps) as C. cbn [w_temp w_name w] in C.
         apply C; auto. intros Hnz _. apply Z.eqb_neq in Hnz.
         match goal with H : true && negb (fp w =? 0) && negb false && unloaded_file_has_fp _ _ _ = false |- _ =>
           rewrite Hnz in H; exact H end.
   - (* NewAddr *)
     cbn in Hwf. apply Z.leb_le in Hwf.
     destruct (find name (mem s)) as [w|] eqn:Ef; [|exact I].
-    destruct (guard_pw w pw); [exact I|].
-    pose proof (find_name _ _ _ Ef) as Hnm.
-    match goal with |- inv (fst (commit s ?w' ?d)) => destruct (commit s w' d) as [s' e] eqn:Ec;
-      apply (commit_inv s w w' d s' e I); auto end.
-    + cbn. now rewrite Hnm.
-    + cbn [w_type w_n]. intros Ht. destruct I. specialize (i_nm0 _ _ Ef Ht).
-      apply Z.eqb_neq in Ht. rewrite Ht. lia.
-    + cbn. destruct I. eauto.
+    destruct (if (w_type w =? TBip) && w_enc w then None else guard_pw w pw); [exact I|].
+    pose proof I as I'. destruct I' as [Um Ud Md U1 U2 F Fm Fd Nm Nd Cm Cd Ok Et].
+    destruct (w_type w =? TColl) eqn:Etc.
+    + commit_case I Ef; eauto.
+    + apply Z.eqb_neq in Etc. pose proof (Nm _ _ Ef Etc). pose proof (Cm _ _ Ef).
+      destruct ((w_type w =? TBip) && chg); commit_case I Ef; cbn; eauto; try lia.
   - (* Scan *)
+    cbn in Hwf. apply andb_prop in Hwf. destruct Hwf as [Hwf Hca]. apply andb_prop in Hwf. destruct Hwf as [Hnum Hea].
+    apply Z.leb_le in Hnum, Hea, Hca.
+    assert (Hk : forall a, 0 <= a -> 0 <= keep num a).
+    { intros a Ha. unfold keep. destruct (num =? 0); lia. }
     destruct (find name (mem s)) as [w|] eqn:Ef; [|exact I].
-    destruct (guard_pw w pw); [exact I|].
-    destruct (w_type w =? TColl); [exact I|].
-    pose proof (find_name _ _ _ Ef) as Hnm.
-    destruct (commit s w dfail) as [s' e] eqn:Ec.
-    apply (commit_inv s w w dfail s' e I); auto.
-    + now rewrite Hnm.
-    + destruct I. eauto.
-    + destruct I. eauto.
+    pose proof I as I'. destruct I' as [Um Ud Md U1 U2 F Fm Fd Nm Nd Cm Cd Ok Et].
+    pose proof (Hk ea Hea). pose proof (Hk ca Hca). pose proof (Cm _ _ Ef).
+    destruct (w_type w =? TBip) eqn:Etb.
+    + destruct (negb (pw =? 0)); [exact I|].
+      commit_case I Ef; cbn; eauto; try lia.
+      intros Ht. pose proof (Nm _ _ Ef Ht). lia.
+    + destruct (guard_pw w pw); [exact I|].
+      destruct (w_type w =? TColl); [exact I|].
+      commit_case I Ef; cbn; eauto; try lia.
+      intros Ht. pose proof (Nm _ _ Ef Ht). lia.
   - (* SetLabel *)
     destruct (find name (mem s)) as [w|] eqn:Ef; [|exact I].
-    pose proof (find_name _ _ _ Ef) as Hnm.
-    match goal with |- inv (fst (commit s ?w' ?d)) => destruct (commit s w' d) as [s' e] eqn:Ec;
-      apply (commit_inv s w w' d s' e I); auto end.
-    + cbn. now rewrite Hnm.
-    + cbn. destruct I. eauto.
-    + cbn. destruct I. eauto.
+    destruct I as [Um Ud Md U1 U2 F Fm Fd Nm Nd Cm Cd Ok Et] eqn:EI.
+    assert (I' : inv s) by (constructor; auto).
+    commit_case I' Ef; cbn; eauto.
   - (* Encrypt *)
     destruct (find name (mem s)) as [w|] eqn:Ef; [|exact I].
-    destruct (w_enc w); [exact I|]. destruct (w_temp w) eqn:Tw; [exact I|].
+    destruct (w_enc w); [exact I|]. destruct (w_type w =? TXpub); [exact I|].
+    destruct (w_temp w) eqn:Tw; [exact I|].
     destruct (pw =? 0); [exact I|].
-    pose proof (find_name _ _ _ Ef) as Hnm.
-    match goal with |- inv (fst (commit s ?w' ?d)) => destruct (commit s w' d) as [s' e] eqn:Ec;
-      apply (commit_inv s w w' d s' e I); auto end.
-    + cbn. now rewrite Hnm.
-    + cbn. destruct I. eauto.
+    pose proof I as I'. destruct I' as [Um Ud Md U1 U2 F Fm Fd Nm Nd Cm Cd Ok Et].
+    commit_case I Ef; cbn; eauto.
   - (* Decrypt *)
     destruct (find name (mem s)) as [w|] eqn:Ef; [|exact I].
     destruct (negb (w_enc w)); [exact I|]. destruct (pw =? 0); [exact I|].
     destruct (negb (pw =? w_pw w)); [exact I|].
-    pose proof (find_name _ _ _ Ef) as Hnm.
-    match goal with |- inv (fst (commit s ?w' ?d)) => destruct (commit s w' d) as [s' e] eqn:Ec;
-      apply (commit_inv s w w' d s' e I); auto end.
-    + cbn. now rewrite Hnm.
-    + cbn. destruct I. eauto.
-    + cbn. intros; discriminate.
+    pose proof I as I'. destruct I' as [Um Ud Md U1 U2 F Fm Fd Nm Nd Cm Cd Ok Et].
+    commit_case I Ef; cbn; eauto. intros; discriminate.
   - (* Recover *)
     destruct (find name (mem s)) as [w|] eqn:Ef; [|exact I].
     destruct (w_enc w) eqn:Ew; [|exact I]. cbn [negb].
-    destruct (negb (w_type w =? TDet)); [exact I|]. destruct ((w_label w =? 0) || (seed =? 0)); [exact I|].
+    destruct (negb ((w_type w =? TDet) || (w_type w =? TBip))); [exact I|].
+    destruct ((w_label w =? 0) || (seed =? 0)); [exact I|].
     destruct (negb (fp_of (w_type w) seed =? fp w)) eqn:Efp; [exact I|].
     apply negb_false_iff in Efp. apply Z.eqb_eq in Efp.
-    pose proof (find_name _ _ _ Ef) as Hnm.
-    assert (Tw : w_temp w = false) by (destruct I; eauto).
-    match goal with |- inv (fst (commit s ?w' ?d)) => destruct (commit s w' d) as [s' e] eqn:Ec;
-      apply (commit_inv s w w' d s' e I); auto end.
-    + cbn. now rewrite Hnm.
-    + cbn. destruct I. eauto.
+    pose proof I as I'. destruct I' as [Um Ud Md U1 U2 F Fm Fd Nm Nd Cm Cd Ok Et].
+    assert (Tw : w_temp w = false) by eauto.
+    commit_case I Ef; cbn; eauto.
   - (* Unload *)
     destruct (find name (mem s)) as [w|] eqn:Ef; [|exact I].
     cbn [fst]. now apply unload_inv.
   - (* UpdateSecrets *)
     destruct (find name (mem s)) as [w|] eqn:Ef; [|exact I].
     destruct (guard_pw w pw); [exact I|]. destruct (negb fok); [exact I|].
-    pose proof (find_name _ _ _ Ef) as Hnm.
-    match goal with |- inv (fst (commit s ?w' ?d)) => destruct (commit s w' d) as [s' e] eqn:Ec;
-      apply (commit_inv s w w' d s' e I); auto end.
-    + cbn. now rewrite Hnm.
-    + cbn. destruct I. eauto.
-    + cbn. destruct I. eauto.
+    pose proof I as I'. destruct I' as [Um Ud Md U1 U2 F Fm Fd Nm Nd Cm Cd Ok Et].
+    commit_case I Ef; cbn; eauto.
   - (* Update *)
     destruct (find name (mem s)) as [w|] eqn:Ef; [|exact I].
     destruct (negb fok); [exact I|].
-    pose proof (find_name _ _ _ Ef) as Hnm.
-    match goal with |- inv (fst (commit s ?w' ?d)) => destruct (commit s w' d) as [s' e] eqn:Ec;
-      apply (commit_inv s w w' d s' e I); auto end.
-    + cbn. now rewrite Hnm.
-    + cbn. destruct I. eauto.
-    + cbn. destruct I. eauto.
+    pose proof I as I'. destruct I' as [Um Ud Md U1 U2 F Fm Fd Nm Nd Cm Cd Ok Et].
+    commit_case I Ef; cbn; eauto.
 Qed.
 
 Lemma run_inv : forall ops s, forallb wf_op ops = true -> inv s -> inv (run ops s).
@@ -628,16 +658,17 @@ Proof.
   rewrite Hf.
   rewrite (nodup_fps_true (disk s) []); [| destruct I; auto | now apply inv_fd_In | intros; intros []].
   cbn [negb].
-  destruct (existsb (fun w => negb (w_type w =? TColl) && (w_n w <=? 0)) (disk s)) eqn:Ex; auto.
+  destruct (existsb (fun w => negb (w_type w =? TColl) && (w_n w + w_c w <=? 0)) (disk s)) eqn:Ex; auto.
   apply existsb_exists in Ex. destruct Ex as (x & Hx & Hb). apply andb_prop in Hb. destruct Hb as [H1 H2].
   apply negb_true_iff in H1. apply Z.eqb_neq in H1. apply Z.leb_le in H2.
-  destruct I. pose proof (i_nd0 _ x (In_find _ _ i_udisk0 Hx) H1). lia.
+  destruct I. pose proof (i_nd0 _ x (In_find _ _ i_udisk0 Hx) H1).
+  pose proof (i_cd0 _ x (In_find _ _ i_udisk0 Hx)). lia.
 Qed.
 
 Lemma inv_mem_eq_disk : forall s, inv s -> mem_eq_disk_b s = true.
 Proof.
   intros s I. unfold mem_eq_disk_b. rewrite (inv_reload s I).
-  pose proof I as I'. destruct I' as [Um Ud Md U1 U2 F Fm Fd Nm Nd Ok Et].
+  pose proof I as I'. destruct I' as [Um Ud Md U1 U2 F Fm Fd Nm Nd Cm Cd Ok Et].
   unfold eq_map, sub_map, not_unloaded, non_temp.
   apply andb_true_intro. split; apply forallb_forall; intros x Hx; apply filter_In in Hx; destruct Hx as [Hx Hp].
   - (* a file that was not unloaded is the wallet in memory *)
@@ -703,17 +734,20 @@ Definition ex_history : list op :=
   [Create "a.wlt" TDet 1 1 false 0 2 false false;
    Create "t.wlt" TDet 2 1 false 0 1 true false;
    Create "c.wlt" TColl 0 3 true 2 0 false false;
+   Create "b.wlt" TBip 3 1 false 0 2 false false;
    Encrypt "a.wlt" 1 false;
-   NewAddr "a.wlt" 1 3 true;
-   NewAddr "a.wlt" 1 3 false;
+   NewAddr "a.wlt" 1 3 false true;
+   NewAddr "a.wlt" 1 3 false false;
+   Scan "b.wlt" 0 3 0 2 false;          (* activity on the change chain only *)
    Unload "c.wlt";
    Decrypt "a.wlt" 2 false].
 
 Lemma ex_history_ok :
   forallb wf_op ex_history = true /\
-  map w_name (mem (run ex_history init)) = ["a.wlt"; "t.wlt"]%string /\
-  map w_name (disk (run ex_history init)) = ["a.wlt"; "c.wlt"]%string /\
-  map w_n (mem (run ex_history init)) = [5; 1] /\
+  map w_name (mem (run ex_history init)) = ["a.wlt"; "t.wlt"; "b.wlt"]%string /\
+  map w_name (disk (run ex_history init)) = ["a.wlt"; "c.wlt"; "b.wlt"]%string /\
+  map w_n (mem (run ex_history init)) = [5; 1; 2] /\
+  map w_c (disk (run ex_history init)) = [0; 0; 3] /\
   mem_eq_disk_b (run ex_history init) = true.
 Proof. vm_compute. repeat split; reflexivity. Qed.
 
